@@ -7,6 +7,7 @@ from ..core import own_walk
 from ..effects import Effects
 from ..model import AnalysisError, FAMILY, MUTABLE, IMMUTABLE
 from ..report import RuleResult, norm
+from . import guards as G
 from ..resolve import ANY
 
 
@@ -332,16 +333,41 @@ def rule_A2(ctx):
         body = spliced
         if c in MUTABLE:
             claim = None
+            COPIES = ('self._bitstore._copy()', 'BitStore(self._bitstore._bitarray)', 'self._bitstore.getslice_msb0(None, None)')
+            env = {}              # local name -> expression text it stands for (aliases of the store, private copies)
+
+            def expand(e):
+                class Sub(ast.NodeTransformer):
+                    def visit_Name(self, n):
+                        if n.id in env and isinstance(n.ctx, ast.Load):
+                            return ast.parse(env[n.id], mode='eval').body
+                        return n
+                import copy as _cp
+                return ast.unparse(Sub().visit(_cp.deepcopy(e)))
             for s in body:           # top level only: executed on every path that returns normally
-                if isinstance(s, ast.If) and ast.unparse(s.test) in ('self._bitstore.immutable', 'self._bitstore.immutable is True'):
-                    inst = [x for x in s.body if isinstance(x, ast.Assign) and ast.unparse(x.targets[0]) == 'self._bitstore'
-                            and ast.unparse(x.value) in ('self._bitstore._copy()', 'BitStore(self._bitstore._bitarray)',
-                                                         'self._bitstore.getslice_msb0(None, None)')]
-                    flag = [x for x in s.body if isinstance(x, ast.Assign) and ast.unparse(x.targets[0]) == 'self._bitstore.immutable'
-                            and isinstance(x.value, ast.Constant) and x.value.value is False]
-                    if inst and flag and inst[0].lineno < flag[0].lineno:
-                        claim = s
-                elif isinstance(s, ast.Assign) and ast.unparse(s.targets[0]) == 'self._bitstore' and ast.unparse(s.value) == 'self._bitstore._copy()':
+                if isinstance(s, ast.Assign) and len(s.targets) == 1 and isinstance(s.targets[0], ast.Name):
+                    env[s.targets[0].id] = expand(s.value)
+                    continue
+                if isinstance(s, ast.If):
+                    pt, flagged, _other = G.pos_if(s)
+                    if expand(pt) in ('self._bitstore.immutable', 'self._bitstore.immutable is True'):
+                        installed, cleared, order = None, [], 0
+                        saved = dict(env)
+                        for x in flagged:
+                            if isinstance(x, ast.Assign) and len(x.targets) == 1:
+                                tgt = x.targets[0]
+                                if isinstance(tgt, ast.Name):
+                                    env[tgt.id] = expand(x.value)
+                                elif ast.unparse(tgt) == 'self._bitstore':
+                                    installed = expand(x.value)
+                                    order = x.lineno
+                                elif isinstance(tgt, ast.Attribute) and tgt.attr == 'immutable' and isinstance(x.value, ast.Constant) and x.value.value is False:
+                                    cleared.append((expand(tgt.value), x.lineno))
+                        env.clear()
+                        env.update(saved)
+                        if installed in COPIES and (any(w == installed for w, _ in cleared) or any(w == 'self._bitstore' and ln > order for w, ln in cleared)):
+                            claim = s
+                elif isinstance(s, ast.Assign) and ast.unparse(s.targets[0]) == 'self._bitstore' and expand(s.value) == 'self._bitstore._copy()':
                     claim = s     # unconditional copy is a (stronger) claim
             early = [x for s in body for x in ast.walk(s) if isinstance(x, ast.Return) and (claim is None or (x.lineno < claim.lineno and any(x is y for b in f.node.body for y in ast.walk(b))))]
             if claim is None or early:
@@ -805,17 +831,17 @@ def rule_A9(ctx):
         for x in own_walk(f.node):
             if isinstance(x, ast.Assign) and any(isinstance(t, ast.Attribute) and t.attr == 'data' for t in x.targets):
                 n += 1
-                v = x.value
-                fresh = False
-                if isinstance(v, ast.Call) and ast.unparse(v.func) in ('BitArray', 'copy.copy', 'copy.deepcopy'):
-                    fresh = True
-                elif isinstance(v, ast.Subscript):
-                    fresh = True     # slicing a BitArray builds a new object (A1: Bits.__getitem__ installs a fresh store)
-                elif isinstance(v, ast.Name):
-                    assigns = [y.value for y in own_walk(f.node) if isinstance(y, ast.Assign) and len(y.targets) == 1
-                               and isinstance(y.targets[0], ast.Name) and y.targets[0].id == v.id]
-                    fresh = bool(assigns) and all(isinstance(a, ast.Call) and ast.unparse(a.func) == 'BitArray' for a in assigns) \
-                        and v.id not in f.params()
+                def fresh_expr(v, depth=0):
+                    if isinstance(v, ast.Call) and ast.unparse(v.func) in ('BitArray', 'copy.copy', 'copy.deepcopy'):
+                        return True
+                    if isinstance(v, ast.Subscript) and isinstance(v.slice, ast.Slice):
+                        return True     # slicing a BitArray builds a new object (A1: Bits.__getitem__ installs a fresh store)
+                    if isinstance(v, ast.Name) and depth < 4 and v.id not in f.params():
+                        assigns = [y.value for y in own_walk(f.node) if isinstance(y, ast.Assign) and len(y.targets) == 1
+                                   and isinstance(y.targets[0], ast.Name) and y.targets[0].id == v.id]
+                        return bool(assigns) and all(fresh_expr(a, depth + 1) for a in assigns)
+                    return False
+                fresh = fresh_expr(x.value)
                 if fresh:
                     r.ok(x)
                 else:
